@@ -1,7 +1,7 @@
 // C31 — The mount's chunk cache is transparent.
 //
 // A real chunk_cache.TieredChunkCache with tiny limits (unit 1 KiB, 8..64 KiB on
-// disk, 4 or 1024 memory entries) is driven with seeded random sequences of
+// disk in the design, up to 512 KiB here; 4 or 1024 memory entries) is driven with seeded random sequences of
 // SetChunk / GetChunk / GetChunkSlice / Shutdown+reopen. File ids are drawn from a
 // small universe built to alias: same (volume,key) with another cookie, same key in
 // another volume, same cookie with another key, unrelated ids. Chunk sizes sit
@@ -18,6 +18,7 @@ import (
 	"math/rand"
 	"os"
 	"runtime/debug"
+	"runtime/pprof"
 	"sync"
 
 	"github.com/chrislusf/seaweedfs/weed/storage/needle"
@@ -29,7 +30,7 @@ import (
 const unit = 1024
 
 type op struct {
-	Kind string `json:"kind"` // set | get | slice | restart
+	Kind string `json:"kind"`           // set | get | slice | restart
 	Fid  int    `json:"fid"`            // index into the sequence's fid universe
 	Size int    `json:"size,omitempty"` // set: payload length
 	Ver  int    `json:"ver,omitempty"`  // set: content version (0 = the fid's one immutable content)
@@ -104,7 +105,10 @@ func genSeq(seed int64, index int, nOps int) *seqCase {
 	rng := rand.New(rand.NewSource(int64(h.Sum64() >> 1)))
 	c := &seqCase{Index: index, Seed: seed}
 	c.MemEntries = []int64{4, 1024}[index%2]
-	c.DiskUnits = []int64{8, 16, 32, 64}[(index/2)%4]
+	c.DiskUnits = []int64{256, 128, 512, 64, 256, 32, 128, 8}[(index/2)%8]
+	if c.DiskUnits <= 32 {
+		nOps /= 3 // nearly every store rotates a disk volume (a leveldb reopen) in these configurations
+	} // KiB on disk, split over 3 layers / 7 volumes
 	c.Fids = fidUniverse(rng)
 	size := make([]int, len(c.Fids)) // size of version 0, fixed at first use
 	for i := range size {
@@ -129,7 +133,7 @@ func genSeq(seed int64, index int, nOps int) *seqCase {
 		f := rng.Intn(len(c.Fids))
 		x := rng.Intn(100)
 		switch {
-		case x < 40:
+		case x < 36:
 			if size[f] < 0 {
 				size[f] = pickSize()
 			}
@@ -140,12 +144,15 @@ func genSeq(seed int64, index int, nOps int) *seqCase {
 			}
 			c.Ops = append(c.Ops, o)
 		case x < 70:
+			if size[f] < 0 && rng.Intn(3) > 0 {
+				continue // mostly look up what was stored
+			}
 			o := op{Kind: "get", Fid: f}
 			s := size[f]
 			if s < 0 {
 				s = pickSize()
 			}
-			switch rng.Intn(6) {
+			switch rng.Intn(10) {
 			case 0:
 				o.Min = 0
 			case 1:
@@ -158,16 +165,19 @@ func genSeq(seed int64, index int, nOps int) *seqCase {
 				o.Min = uint64(s) // what ChunkReadAt asks for: the chunk size
 			}
 			c.Ops = append(c.Ops, o)
-		case x < 97:
+		case x < 99:
+			if size[f] < 0 && rng.Intn(3) > 0 {
+				continue
+			}
 			o := op{Kind: "slice", Fid: f}
 			s := size[f]
 			if s < 0 {
 				s = pickSize()
 			}
-			switch rng.Intn(5) {
-			case 0:
+			switch rng.Intn(8) {
+			case 0, 5, 6:
 				o.Off, o.Len = 0, uint64(s)
-			case 1:
+			case 1, 7:
 				o.Off = 0
 				o.Len = uint64(1 + rng.Intn(s+1))
 			case 2:
@@ -204,7 +214,7 @@ func keyOf(fid string) uint64 {
 }
 
 type stats struct {
-	evals, hits, misses, missesMemResident, sets, restarts, aliasGets int64
+	evals, hits, misses, missesMemResident, sets, restarts, aliasGets, rotations int64
 }
 
 func hexs(b []byte) string {
@@ -243,6 +253,10 @@ func runSeq(r *lib.Run, c *seqCase, dir string, st *stats) {
 		states[i] = &fidState{key: keyOf(f)}
 	}
 	restarted := false
+	// estimate of the disk volume rotations (statistic only): same arithmetic as OnDiskCacheLayer.setChunk
+	total := c.DiskUnits * unit
+	limit := [3]int64{total / 8 / 2, (total/4 + total/8) / 3, total / 2 / 2}
+	var fill [3]int64
 	for i, o := range c.Ops {
 		s := states[o.Fid]
 		fid := c.Fids[o.Fid]
@@ -250,6 +264,17 @@ func runSeq(r *lib.Run, c *seqCase, dir string, st *stats) {
 		case "set":
 			data := content(fid, o.Ver, o.Size)
 			cache.SetChunk(fid, data)
+			layer := 2
+			if len(data) <= unit {
+				layer = 0
+			} else if len(data) <= 4*unit {
+				layer = 1
+			}
+			if fill[layer]+int64(len(data)) > limit[layer] {
+				st.rotations++
+				fill[layer] = 0
+			}
+			fill[layer] += int64((len(data) + 7) / 8 * 8)
 			s.versions = append(s.versions, data)
 			s.latest = data
 			s.sinceStart = true
@@ -339,7 +364,11 @@ func runSeq(r *lib.Run, c *seqCase, dir string, st *stats) {
 func main() {
 	debug.SetGCPercent(400)
 	r := lib.Start("C31", "exploration")
-	r.SetRule("a case is a sequence of SetChunk/GetChunk/GetChunkSlice/Shutdown+reopen on a real TieredChunkCache (unit 1 KiB; 8,16,32 or 64 KiB on disk; 4 or 1024 memory entries) " +
+	if pf := os.Getenv("VERIF_C31_PROF"); pf != "" { // development aid only
+		f, _ := os.Create(pf)
+		_ = pprof.StartCPUProfile(f)
+	}
+	r.SetRule("a case is a sequence of SetChunk/GetChunk/GetChunkSlice/Shutdown+reopen on a real TieredChunkCache (unit 1 KiB; 8..512 KiB on disk; 4 or 1024 memory entries) " +
 		"over a universe of 5..25 file ids that share volume+key, key only or cookie only, with payload sizes around 1x, 4x and 8x the unit; " +
 		"distinct = distinct (configuration, fid universe, op list); non-trivial = at least one lookup returned bytes and at least one disk volume rotation or restart happened")
 	r.Assume("a fid has one immutable content; in 1 of 25 stores a fid is stored again with other content, and then any of the contents stored under that fid is accepted")
@@ -357,7 +386,7 @@ func main() {
 		r.Finish(0)
 	}
 
-	nSeq, nOps := r.Pick(120, 2500), 200
+	nSeq, nOps := r.Pick(32, 600), 300
 	if v := os.Getenv("VERIF_C31_NSEQ"); v != "" { // development aid only
 		fmt.Sscan(v, &nSeq)
 	}
@@ -390,6 +419,7 @@ func main() {
 				total.sets += st.sets
 				total.restarts += st.restarts
 				total.aliasGets += st.aliasGets
+				total.rotations += st.rotations
 				mu.Unlock()
 				if st.hits > 0 {
 					r.Nontrivial(fmt.Sprintf("seq/%d/%d", r.Seed, i))
@@ -415,9 +445,11 @@ func main() {
 	r.Count("stores", total.sets)
 	r.Count("restarts", total.restarts)
 	r.Count("lookups_answered_with_bytes_of_a_same_key_fid", total.aliasGets)
+	r.Count("disk_volume_rotations(estimated)", total.rotations)
 	r.Count("sequences", int64(nSeq))
 	if total.hits == 0 || total.restarts == 0 {
 		r.Inconclusive("no lookup answered with data, or no restart executed")
 	}
+	pprof.StopCPUProfile()
 	r.Finish(20)
 }
